@@ -48,9 +48,14 @@ def _dec_outcome(f, arg, group, twice=True):
     return first
 
 
+_RAW = {}
+
+
 def _dec_outcome1(f, arg, group):
+    _RAW.pop("pt", None)
     try:
         pt = f(arg)
+        _RAW["pt"] = pt
     except ValueError:
         return ("reject",)
     except Exception as e:  # noqa: BLE001
@@ -304,6 +309,11 @@ def _judge(exp, got, recompress, word, group):
         back = recompress(rep)
         if back != ("ok", word):
             return ("not-canonical", word, back)
+        # and the very object the decoder returned (not a triple rebuilt from its value)
+        if _RAW.get("pt") is not None:
+            back = recompress(_RAW["pt"])
+            if back != ("ok", word):
+                return ("not-canonical:returned-object", word, back)
         return None
     if got[0] == "reject":
         if exp[0] == "ok":
